@@ -35,7 +35,7 @@ import (
 
 func runC16(c *Ctx) {
 	c.Sum.Rule = "16 goroutines x every request kind (no cookie, login redirect, callback with token exchange, authenticated request, expired tokens with refresh, logout, unknown cookie) through the real ExtAuthZFilter.Check " +
-		"against 4 OIDC filters sharing one configuration object each: static and DISCOVERED endpoints x memory and Redis stores, keys fetched by the real JWKS provider; concurrently the secret controller reconciles rotating client secrets " +
+		"against 8 OIDC filters (4 of them first used 1-4 s into the run) sharing one configuration object each: static and DISCOVERED endpoints x memory and Redis stores, key sets inline and fetched by the real JWKS provider; concurrently the secret controller reconciles rotating client secrets " +
 		"and the watched CA file is rewritten every few milliseconds; run under the happens-before race detector with a deadlock watchdog; distinct_nontrivial = distinct (filter, request kind, verdict) combinations observed"
 	dur := 6 * time.Second
 	if c.Thorough() {
@@ -58,7 +58,7 @@ func runC16(c *Ctx) {
 			mu.Unlock()
 		}
 		// the client id differs per filter: the audience carries all of them
-		tok, _ := w.keys.mint(tokSpec{Sig: "good-rsa", Aud: []string{"client-0", "client-1", "client-2", "client-3"}, NonceKind: "str", Nonce: nonce, Exp: time.Now().Unix() + 2})
+		tok, _ := w.keys.mint(tokSpec{Sig: "good-rsa", Aud: []string{"client-0", "client-1", "client-2", "client-3", "client-4", "client-5", "client-6", "client-7"}, NonceKind: "str", Nonce: nonce, Exp: time.Now().Unix() + 2})
 		return idpAnswer{Body: fmt.Sprintf(`{"id_token":%q,"access_token":"at","refresh_token":"rt-%d","expires_in":1,"token_type":"Bearer"}`, tok, atomic.AddInt64(&codeN, 1))}
 	}
 	caDir := filepath.Join(c.Out, "ca")
@@ -74,7 +74,7 @@ func runC16(c *Ctx) {
 	// configuration: 4 chains selected by the x-tenant header
 	cfg := &configv1.Config{}
 	var oidcs []*oidcv1.OIDCConfig
-	for i := 0; i < 4; i++ {
+	for i := 0; i < 8; i++ {
 		o := &oidcv1.OIDCConfig{CallbackUri: "https://app.test/callback", ClientId: fmt.Sprintf("client-%d", i),
 			ClientSecretConfig: &oidcv1.OIDCConfig_ClientSecretRef{ClientSecretRef: &oidcv1.OIDCConfig_SecretReference{Name: "sec"}},
 			Scopes:             []string{"openid"}, CookieNamePrefix: fmt.Sprintf("t%d", i), IdToken: &oidcv1.TokenConfig{Header: "authorization", Preamble: "Bearer"},
@@ -82,14 +82,22 @@ func runC16(c *Ctx) {
 			TrustedCaConfig: &oidcv1.OIDCConfig_TrustedCertificateAuthorityFile{TrustedCertificateAuthorityFile: caFile},
 			TrustedCertificateAuthorityRefreshInterval: durationpb.New(5 * time.Millisecond),
 			AbsoluteSessionTimeout:                     2, IdleSessionTimeout: 1}
-		if i%2 == 0 {
+		if i >= 4 { // late tenants: static endpoints, a key set of their own inline
 			o.AuthorizationUri, o.TokenUri = w.idp.srv.URL+"/auth", w.idp.srv.URL+"/token"
-			o.JwksConfig = &oidcv1.OIDCConfig_JwksFetcher{JwksFetcher: &oidcv1.OIDCConfig_JwksFetcherConfig{JwksUri: w.idp.srv.URL + "/jwks", PeriodicFetchIntervalSec: 1}}
+			o.JwksConfig = &oidcv1.OIDCConfig_Jwks{Jwks: strings.Replace(w.idp.jwksDoc, `{"keys"`, fmt.Sprintf(`{"tenant":%d,"keys"`, i), 1)}
+		} else if i%2 == 0 {
+			o.AuthorizationUri, o.TokenUri = w.idp.srv.URL+"/auth", w.idp.srv.URL+"/token"
+			// static endpoints: one filter with the key set inline, one with a fetched key set (the discovered ones fetch theirs too)
+			if i == 0 {
+				o.JwksConfig = &oidcv1.OIDCConfig_Jwks{Jwks: w.idp.jwksDoc}
+			} else {
+				o.JwksConfig = &oidcv1.OIDCConfig_JwksFetcher{JwksFetcher: &oidcv1.OIDCConfig_JwksFetcherConfig{JwksUri: w.idp.srv.URL + "/jwks", PeriodicFetchIntervalSec: 1}}
+			}
 		} else {
 			o.ConfigurationUri = w.idp.srv.URL + "/.well-known/openid-configuration"
 			o.Logout.RedirectUri = ""
 		}
-		if i >= 2 {
+		if i%4 >= 2 {
 			o.RedisSessionStoreConfig = &oidcv1.RedisConfig{ServerUri: "redis://" + mr.Addr()}
 		}
 		oidcs = append(oidcs, o)
@@ -110,11 +118,12 @@ func runC16(c *Ctx) {
 	_, _ = sc.Reconcile(ctx, ctrl.Request{NamespacedName: types.NamespacedName{Namespace: "ns", Name: "sec"}})
 
 	var wg sync.WaitGroup
+	started := time.Now()
 	var total, oks int64
 	var progress int64
 	stop := make(chan struct{})
 	seen := sync.Map{}
-	var shared [4]atomic.Value // tenant -> a session cookie published by some worker: used by all of them at once
+	var shared [8]atomic.Value // tenant -> a session cookie published by some worker: used by all of them at once
 	worker := func(id int) {
 		defer wg.Done()
 		jar := map[int]string{}     // tenant -> session cookie
@@ -125,7 +134,13 @@ func runC16(c *Ctx) {
 				return
 			default:
 			}
-			t := (id + n) % 4
+			// tenants 4..7 receive their first request only after 1, 2, 3, 4 seconds: whatever is initialised lazily per filter
+			// (key sets, discovery, TLS configuration, stores) is then initialised in the middle of the traffic of the others
+			active := 4 + int(time.Since(started)/time.Second)
+			if active > 8 {
+				active = 8
+			}
+			t := (id + n) % active
 			name := cookieName(fmt.Sprintf("t%d", t))
 			kind, path := "visit", "/app"
 			switch {
